@@ -572,6 +572,20 @@ COLL_BODIES = {
 }
 COLL_OWNERS = ("escaped", "alive", "module")
 
+# ---- `modify` with a value that is EQUAL to the one the captured variable holds but is another entity (a second closure made from the same function,
+# a second list with the same elements): the write must happen - the owner and every other closure then work with the new entity
+EQMOD = {
+    "another-instance-of-the-same-closure": (["make = fn() -> (fn() -> int) {", "\tc = 0", "\treturn fn() -> int {", "\t\tmodify c = c + 1", "\t\treturn c", "\t}", "}",
+                                              "cur = make()", "step = fn() -> int {", "\treturn cur()", "}", "reset = fn() {", "\tmodify cur = make()", "}",
+                                              "print step()", "print step()", "reset()", "print step()", "print cur()", "reset()", "reset()", "print step()"], ["1", "2", "1", "2", "1"]),
+    "another-list-with-the-same-elements": (["lst: [int...] = [1]", "other: [int...] = [1]", "swap = fn() {", "\tmodify lst = other", "}", "grow = fn() {", "\tlst.push(5)", "}",
+                                             "swap()", "grow()", "print lst", "print other", "print lst is other"], ["[1, 5]", "[1, 5]", "true"]),
+    "another-empty-list": (["lst: [int...] = []", "other: [int...] = []", "swap = fn() {", "\tmodify lst = other", "}", "swap()", "other.push(3)", "print lst", "print other"], ["[3]", "[3]"]),
+    "another-object-with-equal-fields": (["class P {", "\tv: int", "\tconstructor(self) {", "\t\tself.v = 1", "\t}", "}", "pa = P()", "pb = P()", "swap = fn() {", "\tmodify pa = pb", "}",
+                                          "swap()", "pb.v = 9", "print pa.v", "print pa is pb"], ["9", "true"]),
+    "the-same-scalar-again": (["n = 4", "same = fn() -> int {", "\tmodify n = 4", "\treturn n", "}", "print same()", "n = 6", "print same()", "print n"], ["4", "4", "4"]),
+}
+
 
 def coll_program(body, owner):
     lines, params, arg, model = COLL_BODIES[body]
@@ -632,7 +646,7 @@ class C07(EHistCheck):
         recs = [("site", s, n, o) for s in REC_SITES for n in (1, 2, 3) for o in own]
         typed = [("site", f"{k}@{t}", n, o) for k in TYPED_KINDS for t in TYPED_SITES for n in (1, 2, 3) for o in own]
         snaps = [("site", f"snap:{k}:{w}", n, o) for k in SNAP_SRC for w in SNAP_WHERE for n in (1, 2, 3) for o in own]
-        coll = [("coll", b, o) for b in COLL_BODIES for o in COLL_OWNERS]
+        coll = [("coll", b, o) for b in COLL_BODIES for o in COLL_OWNERS] + [("coll", "eqmod:" + b, o) for b in EQMOD for o in ("module", "alive")]
         return [("capture-site-matrix", sites), ("names-of-its-own-that-equal-a-captured-name-(counter,-block-local,-parameter,-local-assigned-from-an-inner-closure)", coll), ("modify-with-a-value-read-out-of-a-container-then-the-slot-or-the-variable-is-written", snaps), ("captured-variable-of-8-declared-types-written-by-modify-with-a-compatible-value", typed), ("capture-site-matrix-after-shadow/self-assign/modify", pre),
                 ("inner-closure-escapes-its-creator", escs), ("recursive-closures-using-captures-after-the-recursive-call", recs)] + ls
 
@@ -645,7 +659,11 @@ class C07(EHistCheck):
 
     def run_coll(self, case):
         _, body, owner = case
-        src, exp = coll_program(body, owner)
+        if body.startswith("eqmod:"):
+            lines, exp = EQMOD[body[6:]]
+            src = "\n".join(lines if owner == "module" else ["host = fn() {"] + ["\t" + l for l in lines] + ["}", "host()"]) + "\n"
+        else:
+            src, exp = coll_program(body, owner)
         res = driver.run_ms(src)
         detail = {"files": {"x.ms": src}, "res": res.brief(), "expected_lines": exp}
         sig = {"kind": "", "collision": body, "owner": owner}
